@@ -92,7 +92,8 @@ def observe_sched(words, delay):
     _skool()
     from skoolkit import SkoolKitError
     from skoolkit.kbtracer import KeyboardTracer
-    case = {'kind': 'sched', 'words': [chars(w) for w in words], 'delay': delay, 'err': '', 'slots': [], 'raw': list(words)}
+    case = {'kind': 'sched', 'words': [chars(w) for w in words], 'delay': delay, 'err': '', 'slots': [], 'raw': list(words),
+            'gen': {'words': list(words), 'delay': delay}}
     try:
         tr = KeyboardTracer(_plain_sim(), list(words), delay, None)
     except SkoolKitError as e:
@@ -114,7 +115,7 @@ def observe_plist(words):
     _skool()
     from skoolkit import SkoolKitError
     from skoolkit.kbtracer import KeypressTracer
-    case = {'kind': 'plist', 'words': [chars(w) for w in words], 'err': '', 'keys': [], 'raw': list(words)}
+    case = {'kind': 'plist', 'words': [chars(w) for w in words], 'err': '', 'keys': [], 'raw': list(words), 'gen': {'words': list(words)}}
     try:
         tr = KeypressTracer(_plain_sim(), list(words), 7, 0, 0, [0] * 16, 0, None)
     except SkoolKitError as e:
@@ -219,7 +220,7 @@ def run_load_trace(tr):
     """tr: {'words', 'delay', 'steps', 'sim', 't0'} -> trace record for KeyTrace (kind load)."""
     _skool()
     from skoolkit.kbtracer import KeyboardTracer
-    steps = tr['steps']
+    steps = [tuple(s) for s in tr['steps']]
     code, stop, info = assemble(steps, epilogue=(0x00,))
     sim = _mk_sim(tr['sim'], code, tr['t0'])
     tracer = KeyboardTracer(sim, list(tr['words']), tr['delay'], None)
@@ -238,13 +239,14 @@ def run_load_trace(tr):
     return {'kind': 'load', 'words': [chars(w) for w in tr['words']], 'delay': tr['delay'], 'groups': [],
             'steps': [[s[0], s[1] if len(s) > 1 else 0] for s in steps], 'obs': obs, 'ended': 'stopped', 'left': len(tracer.keys),
             'resumed': 0, 'sim': tr['sim'], 'raw': list(tr['words']), 'forms': [s[2] if s[0] == 'r' else '' for s in steps], 'style': tr['style'],
-            't0': tr['t0']}
+            't0': tr['t0'], 'gen': {'words': list(tr['words']), 'delay': tr['delay'], 'steps': [list(s) for s in steps], 'sim': tr['sim'],
+                                   't0': tr['t0'], 'style': tr['style']}}
 
 
 def run_press_trace(tr):
     _skool()
     from skoolkit.kbtracer import KeypressTracer
-    steps = tr['steps']
+    steps = [tuple(s) for s in tr['steps']]
     code, stop, info = assemble(steps)
     sim = _mk_sim(tr['sim'], code, tr['t0'])
     tracer = KeypressTracer(sim, list(tr['words']), 7, 0, 0, [0] * 16, 0, None)
@@ -254,8 +256,7 @@ def run_press_trace(tr):
     tracer.run(timeout, None, None, None, None, None)
     exhausted = not tracer.keys
     obs, n = _collect(sim, steps, info, upto_pc=True if exhausted else None)
-    if exhausted and not any(inf and inf[0] == sim.registers[24] for inf in info):
-        raise MachineryError('E05 press trace: keys exhausted but PC=%d is not just after a read' % sim.registers[24])
+    # (keys exhausted but PC not just after a read: the run went on; all executed steps are reported and TLC says ran-past-end)
     if not exhausted and sim.registers[24] != stop:
         raise MachineryError('E05 press trace timed out before its end: PC=%d stop=%d' % (sim.registers[24], stop))
     if CORRUPT == 'press':
@@ -263,7 +264,8 @@ def run_press_trace(tr):
     return {'kind': 'press', 'words': [chars(w) for w in tr['words']], 'delay': 0, 'groups': [],
             'steps': [[s[0], s[1] if len(s) > 1 else 0] for s in steps[:n]], 'obs': obs, 'ended': 'exhausted' if exhausted else 'stopped',
             'left': len(tracer.keys), 'resumed': 0, 'sim': tr['sim'], 'raw': list(tr['words']),
-            'forms': [s[2] if s[0] == 'r' else '' for s in steps[:n]], 'style': tr['style'], 't0': tr['t0'], 'planned': len(steps)}
+            'forms': [s[2] if s[0] == 'r' else '' for s in steps[:n]], 'style': tr['style'], 't0': tr['t0'], 'planned': len(steps),
+            'gen': {'words': list(tr['words']), 'steps': [list(s) for s in steps], 'sim': tr['sim'], 't0': tr['t0'], 'style': tr['style']}}
 
 
 # ---------------------------------------------------------------------------------------------------- tap2sna: plan (spy)
@@ -298,7 +300,8 @@ def observe_plan(wd, load, machine, tape):
         so, se, rc = pipedrv.run_tool(tap2sna.main, args)
     finally:
         tap2sna.KeyboardTracer = orig
-    case = {'kind': 'plan', 'chars': chars(load or ''), 'machine': machine, 'err': '', 'words': [], 'stop': -1, 'delay': -1, 'raw': load}
+    case = {'kind': 'plan', 'chars': chars(load or ''), 'machine': machine, 'err': '', 'words': [], 'stop': -1, 'delay': -1, 'raw': load,
+            'gen': {'load': load, 'machine': machine}}
     if 'stop' in seen:
         case['words'] = [chars(w) for w in seen['words']]
         case['stop'] = int(seen['stop'])
@@ -332,7 +335,7 @@ def observe_line(wd, load, cfg, tape, tag):
         args += ['-c', '%s=%s' % (k, v)]
     args += ['--start', str(LINE_SCAN), tape, out]
     so, se, rc = pipedrv.run_tool(tap2sna.main, args)
-    case = {'kind': 'line', 'chars': chars(load), 'err': '', 'line': [], 'pc': -1, 'raw': load, 'cfg': dict(cfg)}
+    case = {'kind': 'line', 'chars': chars(load), 'err': '', 'line': [], 'pc': -1, 'raw': load, 'cfg': dict(cfg), 'gen': {'load': load, 'cfg': dict(cfg)}}
     if rc or not os.path.isfile(out):
         case['err'] = 'rc=%s %s' % (rc, (se or so)[-200:])
         return case
@@ -418,7 +421,7 @@ def observe_pe2e(wd, pc, tag):
     rec = {'kind': 'pe2e', 'words': [], 'delay': 0, 'groups': [chars(g) for g in groups],
            'steps': [[s[0], s[1]] for s in steps if s[0] != 'd'], 'obs': [], 'ended': 'stopped', 'left': 0,
            'resumed': so.count('Resuming LOAD'), 'sim': 'py' if str(pc['cfg'].get('python')) == '1' else 'c', 'raw': list(groups),
-           'forms': [s[2] if s[0] == 'r' else '' for s in steps if s[0] != 'd'], 'style': 'pe2e', 'cfg': dict(pc['cfg']), 'err': '',
+           'forms': [s[2] if s[0] == 'r' else '' for s in steps if s[0] != 'd'], 'style': 'pe2e', 'cfg': dict(pc['cfg']), 'err': '', 'gen': pc,
            'pressing': [ln[len('Pressing keys: '):] for ln in so.splitlines() if ln.startswith('Pressing keys: ')]}
     for fn in (src, tap, tpath):
         os.remove(fn)
